@@ -111,6 +111,67 @@ def reserve_postcondition(caller, bi, facts, eb):
     return extra
 
 
+def vec_reserve_postcondition(caller, bi, facts, eb, v_):
+    """`len(v) + k <= capacity(v)` for a call `v.reserve(k)` / `reserve_exact(k)` that dominates block bi, when no block on a way from the
+    call to bi hands `v` to anything as `&mut` (push, set_len, another reserve, a loop body that appends: the fact is about the Vec as it
+    was when reserve returned)"""
+    cfg = cfg_of(caller)
+    want = canon(v_)
+    while isinstance(want, tuple) and want and want[0] in ("ref", "deref"):
+        want = want[1]
+
+    def same(e):
+        e = canon(e)
+        while isinstance(e, tuple) and e and e[0] in ("ref", "deref"):
+            e = e[1]
+        return e == want
+    out = []
+    touching = []
+    for cbi, t in caller.calls():
+        if caller.blocks[cbi]["cleanup"]:
+            continue
+        loc = (cbi, len(caller.blocks[cbi]["stmts"]))
+        if (callee(t) or {}).get("name") in ("as_mut_ptr", "as_ptr", "len", "capacity", "as_mut_slice", "as_slice", "spare_capacity_mut", "deref_mut", "deref", "is_empty"):
+            continue            # looks at the Vec, changes neither its length nor its buffer
+        for a in t["args"]:
+            if a["k"] in ("copy", "move") and not a["pl"]["p"] and caller.locals[a["pl"]["l"]]["ty"].startswith("&mut") and same(eb.operand(a, loc)):
+                touching.append(cbi)
+    for cbi, t in caller.calls():
+        fn = callee(t)
+        if fn is None or caller.blocks[cbi]["cleanup"]:
+            continue
+        r = fn.get("res") or fn
+        if not ("alloc::vec::Vec" in r.get("path", "") and fn["name"] in ("reserve", "reserve_exact")) or len(t["args"]) != 2:
+            continue
+        if not (cfg.dominates(cbi, bi) and cbi != bi):
+            continue
+        loc = (cbi, len(caller.blocks[cbi]["stmts"]))
+        if not same(eb.operand(t["args"][0], loc)):
+            continue
+        # nothing touches v between the reserve and the write
+        def reaches_avoiding(a, b_, avoid):
+            seen, st = set(), [a]
+            while st:
+                x = st.pop()
+                for y in cfg.succ[x]:
+                    if y == avoid:
+                        continue
+                    if y == b_:
+                        return True
+                    if y not in seen:
+                        seen.add(y)
+                        st.append(y)
+            return False
+        # (a way from the toucher back to the write that passes the reserve again re-establishes the fact)
+        if any(w not in (cbi, bi) and cfg.reaches(cbi, w) and reaches_avoiding(w, bi, cbi) for w in touching):
+            continue
+        k = eb.operand(t["args"][1], loc)
+        ln = ("call", "len", (slice_id(norm_len(v_)),))
+        out.append(("le", ("bin", "Add", ln, k), ("call", "alloc::vec::Vec::<T, A>::capacity", (v_,))))
+        out.append(("le", ("bin", "Add", ("call", "alloc::vec::Vec::<T, A>::len", (v_,)), k), ("call", "alloc::vec::Vec::<T, A>::capacity", (v_,))))
+    return out
+
+
 def run(facts):
     res = Result("A6", "safe callers establish the stated preconditions of crate unsafe helpers in release code; raw slices have an "
                        "approved shape; raw writes are bounded by the real length of their destination/source")
@@ -308,6 +369,22 @@ def judge_sites(facts, helpers, caller, only_blocks=None):
                             if (const_of(n) == 1 and ctx.lt(off, ln)) or ctx.le(("bin", "Add", off, n), ln):
                                 hows.append("%s: offset + count <= len(%s)" % (what, fmt_expr(b0[2][0])[:60]))
                                 continue
+                    # a write at `v.as_mut_ptr().add(off)` into a Vec needs off + count <= v.capacity(): from a guard, or from a `v.reserve(k)`
+                    # that dominates the write with nothing touching v in between (then len(v) + k <= capacity(v))
+                    if what == "destination" and is_call(inner, "add") and len(inner[2]) == 2:
+                        b0v = strip_ptr(inner[2][0])
+                        if (is_call(b0v, "as_mut_ptr") or is_call(b0v, "as_ptr")) and "alloc::vec::Vec" in b0v[1]:
+                            v_ = b0v[2][0]
+                            capv = ("call", "alloc::vec::Vec::<T, A>::capacity", (v_,))
+                            off = inner[2][1]
+                            ctxv = Ctx(caller, bi, facts, extra=extra + vec_reserve_postcondition(caller, bi, facts, eb, v_), norm=norm_len)
+                            tot = ("bin", "Add", off, n)
+                            if ctxv.le(tot, capv) or ctxv.le(("bin", "Add", norm_len(off), n), capv):
+                                hows.append("%s: offset + count <= capacity of the Vec" % what)
+                            else:
+                                probs.append("%s: %s byte(s) are written at the Vec's buffer + %s and nothing that holds there says %s + %s <= capacity" % (
+                                    what, fmt_expr(n)[:40], fmt_expr(off)[:40], fmt_expr(off)[:40], fmt_expr(n)[:40]))
+                            continue
                     # a write at `h.ptr + off` (h a BytesMut: fields ptr / len / cap) needs room: off + count <= h.cap must follow from the
                     # conditions that hold at the write (A8 keeps len <= cap, which leaves no room for even one byte at ptr + len)
                     if what == "destination" and is_call(inner, "add") and len(inner[2]) == 2:
